@@ -41,6 +41,17 @@ fn main() {
     let code = match args.get(1).map(|s| s.as_str()) {
         Some("explore") => plan::cmd_explore(&opt),
         Some("replay") => plan::cmd_replay(&opt),
+        Some("instvar") => {
+            let depth: usize = opt.get("depth").and_then(|s| s.parse().ok()).unwrap_or(3);
+            let t0 = std::time::Instant::now();
+            let ladder: usize = opt.get("ladder").and_then(|s| s.parse().ok()).unwrap_or(40);
+            let r = harness::instvar::explore(depth, ladder, 16);
+            println!("instvar depth={depth} sequences={} steps={} checks={} outcomes={:?} violations={} wall={:.1}s", r.sequences, r.steps, r.checks, r.outcomes, r.violations.len(), t0.elapsed().as_secs_f64());
+            for v in r.violations.iter().take(8) {
+                println!("  {} {}", v.rule, v.detail);
+            }
+            0
+        }
         Some("decode-marker") => {
             let nkeys: u16 = opt.get("nkeys").and_then(|s| s.parse().ok()).unwrap_or(3);
             let u = Universe::new(nkeys, false);
